@@ -167,9 +167,9 @@ def _cells(rng, L):
     return rng.choice(list(range(1, 3 * L + 2)))
 
 
-def gen_forcing(rng, tier):
+def gen_forcing(rng, tier, count=None):
     out = []
-    for k in range(vol(tier, 1500, 40000)):
+    for k in range(count or vol(tier, 1500, 40000)):
         L = rng.choice([0, 1, 2, 3, 4, 5, 0, 1, 2, 3, 4, 5, 6, 7, 8])
         ncells = _cells(rng, L)
         nspec, vmap, rxns = rand_mech(rng, malformed=(k % 25 == 7))
@@ -182,9 +182,9 @@ def gen_forcing(rng, tier):
     return out
 
 
-def gen_jacobian(rng, tier):
+def gen_jacobian(rng, tier, count=None):
     out = []
-    for k in range(vol(tier, 1500, 40000)):
+    for k in range(count or vol(tier, 1500, 40000)):
         L = rng.choice([0, 1, 2, 3, 4, 5, 0, 1, 2, 3, 4, 5, 6, 7, 8])
         csc = rng.randrange(2)
         ncells = _cells(rng, L)
